@@ -2,6 +2,12 @@
    Line forms (harness/c14/main.go):
      (length S I) (slice S i j I) (at S i I) (indices S X I) (index S X I) (rindex S X I)
      (match RE FLAGS S NAMES XS I) (splits RE FLAGS S XS I) (gsubid RE FLAGS S XS I)
+     (test RE FLAGS S MS XS1 XSALL I) (capture RE FLAGS S NAMES XS I) (scan RE FLAGS S XSALL I)
+     (split2 RE FLAGS S XSALL I)
+   MS = Regexp.MatchString; XS1 / XSALL = FindAllStringSubmatchIndex(S, 1) / (S, -1).
+   Every engine output is first checked against the hypotheses of the theorems (alignedb, orderedb,
+   progressb, names_nodupb, MatchString = a first match exists, XS1 = first of XSALL); a failure gives
+   the verdict hyp-violated.
    S, X, RE, FLAGS strings; i, j integers or null; NAMES = regexp.SubexpNames() as an array of strings;
    XS = regexp.FindAllStringSubmatchIndex(S, n) as an array of arrays of integers, obtained by the harness
    from Go's regexp with gojq's flag translation; I = what the implementation returned. *)
@@ -62,7 +68,7 @@ Definition run_match (args : list jv) (impl : sexp) : sexp :=
   | [_; _; JStr s; JArr names; JArr xs] =>
       match strs_of names, zss_of xs with
       | Some names, Some xs =>
-          if forallb (alignedb s) xs && orderedb s xs then
+          if forallb (alignedb s) xs && orderedb s xs && progressb xs && names_nodupb names then
             match all_some (func_match s xs) with
             | Some ms => agree (ROk (JArr (map (match_jv names) ms))) impl
             | None => A "hyp-violated"
@@ -80,7 +86,7 @@ Definition run_reduction (is_splits : bool) (args : list jv) (impl : sexp) : sex
   | [_; _; JStr s; JArr xs] =>
       match zss_of xs with
       | Some xs =>
-          if forallb (alignedb s) xs && orderedb s xs then
+          if forallb (alignedb s) xs && orderedb s xs && progressb xs then
             let rep := reported s xs in
             if is_splits then
               agree (ROk (JArr (map JStr (splits s (map (fun t => (fst (fst t), snd (fst t))) rep))))) impl
@@ -90,6 +96,79 @@ Definition run_reduction (is_splits : bool) (args : list jv) (impl : sexp) : sex
       end
   | _ => A "undecodable"
   end.
+
+Fixpoint zss_eqb (a b : list (list Z)) : bool :=
+  match a, b with
+  | [], [] => true
+  | x :: a', y :: b' =>
+      (fix eq (x y : list Z) : bool :=
+         match x, y with
+         | [], [] => true
+         | u :: x', v :: y' => (u =? v) && eq x' y'
+         | _, _ => false
+         end) x y && zss_eqb a' b'
+  | _, _ => false
+  end.
+
+Definition hyps_ok (s : list N) (xs : list (list Z)) : bool :=
+  forallb (alignedb s) xs && orderedb s xs && progressb xs.
+
+(* test / capture / scan / split/2 through their transcriptions *)
+Definition run_builtin (k : sexp) (args : list jv) (impl : sexp) : sexp :=
+  if atom_is "test" k then
+    match args with
+    | [_; _; JStr s; JBool ms; JArr xs1; JArr xsall] =>
+        match zss_of xs1, zss_of xsall with
+        | Some xs1, Some xsall =>
+            if hyps_ok s xsall && Bool.eqb ms (negb (match xs1 with [] => true | _ => false end))
+               && zss_eqb xs1 (firstn 1 xsall)
+            then agree (ROk (jq_test ms)) impl else A "hyp-violated"
+        | _, _ => A "undecodable"
+        end
+    | _ => A "undecodable"
+    end
+  else if atom_is "capture" k then
+    match args with
+    | [_; _; JStr s; JArr names; JArr xs] =>
+        match strs_of names, zss_of xs with
+        | Some names, Some xs =>
+            if hyps_ok s xs && names_nodupb names then
+              match all_some (func_match s xs) with
+              | Some ms => agree (ROk (JArr (map (jq_capture names) ms))) impl
+              | None => A "hyp-violated"
+              end
+            else A "hyp-violated"
+        | _, _ => A "undecodable"
+        end
+    | _ => A "undecodable"
+    end
+  else if atom_is "scan" k then
+    match args with
+    | [_; _; JStr s; JArr xs] =>
+        match zss_of xs with
+        | Some xs =>
+            if hyps_ok s xs then
+              match all_some (func_match s xs) with
+              | Some ms => agree (ROk (JArr (map jq_scan ms))) impl
+              | None => A "hyp-violated"
+              end
+            else A "hyp-violated"
+        | None => A "undecodable"
+        end
+    | _ => A "undecodable"
+    end
+  else
+    match args with
+    | [_; _; JStr s; JArr xs] =>
+        match zss_of xs with
+        | Some xs =>
+            if hyps_ok s xs then
+              agree (ROk (jq_split2 s (map (fun t => (fst (fst t), snd (fst t))) (reported s xs)))) impl
+            else A "hyp-violated"
+        | None => A "undecodable"
+        end
+    | _ => A "undecodable"
+    end.
 
 Definition run_sexp14 (e : sexp) : sexp :=
   match e with
@@ -101,6 +180,8 @@ Definition run_sexp14 (e : sexp) : sexp :=
               if atom_is "match" k then run_match args impl
               else if atom_is "splits" k then run_reduction true args impl
               else if atom_is "gsubid" k then run_reduction false args impl
+              else if atom_is "test" k || atom_is "capture" k || atom_is "scan" k || atom_is "split2" k
+              then run_builtin k args impl
               else match run14 k args with
                    | Some r => agree r impl
                    | None => A "undecodable"
